@@ -17,8 +17,9 @@ from framework.registry import target, job, PROPS, COMMON_ASSUME
 #    level-scheduled) because no reduction, random vector, critical section or form switch is involved there; across the
 #    switch only a rounding bound is demanded, as the property says.
 #  * Outputs that depend on product() are demanded bitwise inside {<= 16 threads} and inside {> 16 threads}.  Across the
-#    16-thread SpGEMM switch the property text still says "bitwise": a difference there is reported under the distinct key
-#    suffix ':bitwise-across-spgemm-switch' (design finding F5) and is additionally bounded by a rounding bound.
+#    16-thread SpGEMM switch the property text still says "bitwise": a difference there is reported under the distinct keys
+#    '(product|hierarchy|cycle):saad-vs-rmerge-rounding' of sub 'diff' (design finding F5) and is additionally bounded by a
+#    rounding bound (a difference beyond it has the separate key suffix ':beyond-rounding-across-spgemm-switch').
 #  * Energy-minimising transfer operators are compared on level 1 only (deeper levels may take different discrete
 #    aggregation decisions after a last-bit change of A_c, which "equal up to rounding" cannot exclude).
 #  * Full solves: "all thread counts report convergence to tol => solutions agree to 10 kappa_2(A) tol" (kappa from a dense
